@@ -493,6 +493,28 @@ func TestConfigurations(t *testing.T) {
 	})
 }
 
+// every keyword of the language as package name, through -name and as the grammar's own name
+func TestEveryKeywordAsName(t *testing.T) {
+	rec.Begin(t)
+	rec.Rule(rule + ruleMore)
+	if rec.Shard() != 0 {
+		t.Skip("seed independent: shard 0 only")
+	}
+	if _, err := os.Stat(os.Getenv("VERIF_EMERGE_BIN")); err != nil {
+		t.Skip("emerge binary not built")
+	}
+	for k := token.BREAK; k <= token.VAR; k++ {
+		for _, flag := range []string{"=", " "} {
+			c := Config{Input: "valid", OutFlag: "=", OutState: "dir", Pre: "none", NameFlag: flag, Name: k.String()}
+			summary, err := checkConfig(c)
+			rec.Case(c.String(), true, "keyword_as_name", summary)
+			if err != nil {
+				rec.Fail(t, "config", c, "%v", err)
+			}
+		}
+	}
+}
+
 func TestReplay(t *testing.T) {
 	if !rec.IsReplay() {
 		t.Skip("not in replay mode")
